@@ -51,15 +51,4 @@ def col (tab : Nat) (pre : Str) : Nat := colFrom tab 0 pre
 /-- space, tab, STX or ETX: the characters of a line that normalises to the empty line -/
 def isBlankish (c : Char) : Bool := c = ' ' || c = '\t' || c = STX || c = ETX
 
-/-- The first line of `s` (up to the first `\n` or `\r`, STX/ETX ignored) is empty or has a character other than
-    space and tab.  The negation is the domain of finding F-C09-1. -/
-def firstLineOk (s : Str) : Bool :=
-  match stripCtl s with
-  | [] => true
-  | c :: r =>
-    c = '\n' || c = '\r' ||
-    (match (c :: r).dropWhile (fun c => c = ' ' || c = '\t') with
-     | [] => false
-     | d :: _ => d != '\n' && d != '\r')
-
 end MdVerif.Normalize
